@@ -762,6 +762,10 @@ def run_case(rec, case):
     edit = case['edit']
     sent = apply_edit(body, edit) if edit else body
     strong = strong_corruption(case, body, lay, edit) if edit else None
+    # a part announcing an identity Content-Transfer-Encoding in another spelling than the one falcon documents ('binary'):
+    # the statement fixes neither acceptance nor refusal -> exact parts or the multipart parse error, same on both stacks
+    cte_weak = not edit and any(p.style.get('cte') not in (None, 'binary') for p in parts)
+    weak = bool(edit and strong is None) or cte_weak
     obs = []
     for stack in case['stacks']:
         try:
@@ -773,7 +777,13 @@ def run_case(rec, case):
         obs.append(o)
         wit = {'case': case_to_json(case), 'stack': stack, 'observed': o.summary(), 'ctype_header': ctype,
                'body_len': len(sent)}
-        if not edit:
+        if cte_weak:
+            rec.count('mon.cte.weak')
+            if _is_mpe(o.exc) and o.status == 400 and not o.hang and o.escaped is None:
+                rec.count('cte.weak.400')
+            else:
+                judge_valid(rec, case, stack, o, wit)
+        elif not edit:
             judge_valid(rec, case, stack, o, wit)
         elif strong is not None:
             rec.count('mon.corrupt.strong')
@@ -800,11 +810,11 @@ def run_case(rec, case):
         a, b = _cmp_view(obs[0]), _cmp_view(obs[1])
         if a != b:
             known = None
-            if edit and strong is None:
+            if weak:
                 known = classify_exc(obs[0], case) or classify_exc(obs[1], case)
             # on a valid/strong case each stack was already judged against the encoder; only report
             # a divergence here when the weak oracle is the only judge
-            if edit and strong is None:
+            if weak:
                 report(rec, 'wsgi-asgi-disagree', {'case': case_to_json(case), 'wsgi': obs[0].summary(),
                                                    'asgi': obs[1].summary(), 'ctype_header': ctype}, known)
     classes(rec, case, body, lay)
@@ -908,6 +918,7 @@ EXT_SPECIALS = "!#$&+-.^_`|~"
 EXT_TEXTS = [t for c in EXT_SPECIALS for t in (c + 'a', 'a' + c + 'b', 'a' + c)] + [
     EXT_SPECIALS, 'a' + EXT_SPECIALS + 'z.txt', '100% sure?.txt', "it's *.txt", 'a;b,c="d" e=f.txt', '€&£#$', 'r&d/q+a\\x|y.txt',
     '%41', '%', "'", "''x", 'x']
+CTE_VALUES = ['binary', 'Binary', 'BINARY', 'bInArY', '8bit', '8BIT', '7bit', '7Bit']
 CTYPES = [None, 'text/plain', 'text/plain; charset=utf-8', 'text/plain; charset=latin-1', 'application/json',
           'application/octet-stream', 'image/png', 'application/x-www-form-urlencoded']
 STYLES = [{}, {'case': 'lower'}, {'case': 'upper', 'sep': ';'}, {'token': True}, {'ext_first': True, 'ctype_first': True},
@@ -1036,6 +1047,21 @@ def phase_meta(rec):
                 p = Part('up', b'v', filename=plain, ext=(charset, ('', 'en', 'de-CH')[(k // 3) % 3], text), style=st)
                 do_case(rec, make_case(b'ab', [p, Part('other', b'w')], [('data',), ('read_all',)], tag='MX'))
                 rec.count('cls.ext_value.' + enc)
+    # Content-Transfer-Encoding: identity encodings in every spelling, on the first / middle / last part
+    for cte in CTE_VALUES:
+        for pos in (0, 1, 2):
+            for first in (False, True):
+                for op in (('data',), ('read_all',), ('skip',)):
+                    idx += 1
+                    if idx % rec.nshards != rec.shard:
+                        continue
+                    k = idx // rec.nshards
+                    parts = [Part('p%d' % j, b'seven bit text %d\r\n--' % j, ctype=(None, 'application/octet-stream')[j % 2])
+                             for j in range(3)]
+                    parts[pos].style = {'cte': cte, 'cte_first': first, 'case': ('title', 'lower', 'upper')[k % 3]}
+                    do_case(rec, make_case(b'ab', parts, [op] * 3, ics=(None, 96)[k % 2], transport=(None, 1, 7)[(k // 2) % 3],
+                                           tag='MC'))
+                    rec.count('cls.cte.' + ('binary' if cte == 'binary' else 'other'))
     # get_media parts
     for i, (ct, content, _m) in enumerate(MEDIA_PARTS):
         if i % rec.nshards != rec.shard:
@@ -1274,6 +1300,60 @@ def phase_text(rec):
     rec.count('phase.T.done')
 
 
+def phase_mixed_transport(rec):
+    """G: transports of MIXED event sizes: at least one internal buffer worth of data, then one or two events shorter than
+    the searched delimiter (optionally with empty events around them), then a large event - with every delimiter line and
+    every header terminator of the form laid over the three pieces in every possible way (tail t >= 1 bytes in the first
+    piece, the whole short piece(s), head >= 1 bytes in the last).  Uniform chunkings never produce this shape."""
+    idx = 0
+    configs = [(96, b'B'), (96, B70), (None, b'B')] if rec.tier == 'quick' else \
+        [(96, b'B'), (96, b'ab'), (96, B70), (80, B35), (None, b'B'), (None, B70)]
+    for ics, b in configs:
+        size = ics or 8192
+        d = b'\r\n--' + b
+        parts = [Part('a', filler(size + 20, b)), Part('b', b'mid\r\n-', filename='m.bin', ctype='image/png'),
+                 Part('c', filler(size + 9, b, 3))]
+        epi = b'e' * (2 * size + 5)
+        body, lay = M.encode_form(parts, b, b'', epi, True)
+        targets = []          # (offset of the searched byte string in the body, its length)
+        for kind, i, s0, e0 in lay.spans:
+            if kind == 'delimiter' and i > 0:
+                targets.append((s0, len(d)))
+            elif kind == 'close':
+                targets.append((s0, len(d)))
+            elif kind == 'blank':
+                targets.append((s0, 4))
+        for pos, n in targets:
+            if pos < size:
+                continue
+            shorts = range(1, n - 1) if n <= 8 else [1, 2, 3, 5, n // 2, n - 3, n - 2]
+            if rec.tier == 'quick' and n > 8:
+                shorts = [1, 2, n // 2, n - 2]
+            for sh in shorts:
+                tails = range(1, n - sh)
+                if n > 8 and (rec.tier == 'quick' or ics is None):
+                    tails = sorted(set([1, 2, (n - sh) // 2, n - sh - 1]) - {0})
+                for t in tails:
+                    if t < 1 or t + sh >= n:
+                        continue
+                    first = pos + t
+                    variants = [[first, sh], [first, 0, sh, 0]]
+                    if sh >= 2:
+                        variants.append([first, 1, sh - 1])
+                    variants.append([size, first - size, sh] if first - size > 0 else [first, sh, 0])
+                    for v, tr in enumerate(variants):
+                        idx += 1
+                        if idx % rec.nshards != rec.shard:
+                            continue
+                        k = idx // rec.nshards
+                        op = (('read_all',), ('data',), ('skip',), ('read', 5), ('loop', 64))[k % 5]
+                        do_case(rec, make_case(b, parts, [op, ('read_all',), ('data',)], epilogue=epi, ics=ics,
+                                               transport=tr + [10 ** 7], asgi_cl=bool(k % 2),
+                                               stacks=('asgi',) if ics is None else ('wsgi', 'asgi'), tag='G'))
+                        rec.count('transport.mixed')
+    rec.count('phase.G.done')
+
+
 EDIT_BYTES = [0x0d, 0x0a, 0x2d, 0x22, 0xff, 0x41, 0x3b, 0x20, 0x00, 0x3a]
 
 
@@ -1460,10 +1540,13 @@ def rand_case(rec, rng):
                           b + b'--\r\n', b'--', b'\r\n', b'--' + b + b'--'])
     fcrlf = bool(epi) or rng.random() < 0.7
     if total > 20000:
-        tr = rng.choice([None, 1000, 4096, 8192, 8191, 8193, 32768, 777])
+        tr = rng.choice([None, 1000, 4096, 8192, 8191, 8193, 32768, 777,
+                         [rng.choice([1, 2, 3, 70, 4096, 8192, 8193, 9000, 20000]) for _ in range(rng.randint(2, 30))] + [10 ** 7]])
         ics = None
     else:
-        tr = rng.choice([None, None, 1, 2, 3, 7, 64, 96, 97, 1000, [rng.randint(0, 9) for _ in range(rng.randint(1, 30))] + [10 ** 6]])
+        tr = rng.choice([None, None, 1, 2, 3, 7, 64, 96, 97, 1000, [rng.randint(0, 9) for _ in range(rng.randint(1, 30))] + [10 ** 6],
+                         [rng.choice([0, 1, 2, 3, 5, 40, 80, 96, 97, 128, 200, 257, 300]) for _ in range(rng.randint(2, 40))] + [10 ** 6],
+                         [rng.choice([1, 2, 3, 96, 130, 260]) for _ in range(rng.randint(2, 40))] + [10 ** 6]])
         ics = rng.choice([None, None, 80, 96, 128, 257])
     limits = None
     r = rng.random()
@@ -1535,7 +1618,7 @@ def run(rec):
     counter = [0]
     times = []
     for name, fn in (('P', phase_boundary_param), ('M', phase_meta), ('B', phase_consumption), ('L', phase_limits),
-                     ('T', phase_text), ('D', phase_align), ('F', phase_align_corrupt), ('E', phase_corrupt), ('A', lambda r: phase_forms(r, counter))):
+                     ('T', phase_text), ('D', phase_align), ('G', phase_mixed_transport), ('F', phase_align_corrupt), ('E', phase_corrupt), ('A', lambda r: phase_forms(r, counter))):
         t0, e0 = rec.elapsed(), rec.evaluations
         fn(rec)
         times.append('%s %.1fs/%d' % (name, rec.elapsed() - t0, rec.evaluations - e0))
@@ -1580,14 +1663,14 @@ def floors(rec):
         ('cls.boundary_len.1', 100), ('cls.boundary_len.70', 100), ('cls.preamble', 100), ('cls.epilogue', 100),
         ('cls.no_final_crlf', 100), ('cls.parts.0', 8), ('cls.empty_content', 50), ('cls.content_delim_prefix', 500),
         ('cls.transport.1byte', 200), ('cls.transport.chunked', 500), ('cls.ics.small', 1000), ('cls.ics.default', 1000),
-        ('cls.body_spans_buffers.wsgi', 500), ('cls.body_spans_buffers.asgi', 200), ('cls.ext_filename', 100), ('cls.quoted_pair', 100), ('cls.ext_value.attr', 40), ('cls.ext_value.all', 40), ('cls.ext_value.lower', 40), ('cls.ext_value.full', 40),
+        ('cls.body_spans_buffers.wsgi', 500), ('cls.body_spans_buffers.asgi', 200), ('cls.ext_filename', 100), ('cls.quoted_pair', 100), ('cls.cte.binary', 15), ('cls.cte.other', 100), ('mon.cte.weak', 200), ('cls.ext_value.attr', 40), ('cls.ext_value.all', 40), ('cls.ext_value.lower', 40), ('cls.ext_value.full', 40),
         ('cls.edit.sub', 300), ('cls.edit.del', 50), ('cls.edit.ins', 300), ('cls.edit.trunc', 50),
         ('mon.op.read', 200), ('mon.op.read_rest', 100), ('mon.op.read_all', 500), ('mon.op.loop', 100),
         ('mon.op.until', 100), ('mon.op.until_n', 50), ('mon.op.mix', 50), ('mon.op.data', 300), ('mon.op.text', 50), ('mon.op.media', 20), ('mon.op.iter', 20),
         ('mon.op.skip', 200), ('mon.op.data_catch', 20), ('mon.op.pipe', 10),
         ('random.valid', 40 if q else 400), ('random.corrupt', 40 if q else 400), ('mon.boundary_param', 6),
         ('phase.A.done', rec.nshards), ('phase.B.done', rec.nshards), ('phase.M.done', rec.nshards),
-        ('phase.L.done', rec.nshards), ('phase.D.done', rec.nshards), ('phase.T.done', rec.nshards), ('text.ok', 200), ('text.fail', 200), ('cls.limit.charset', 100), ('phase.F.done', rec.nshards), ('align.corrupt', 300), ('phase.E.done', rec.nshards),
+        ('phase.L.done', rec.nshards), ('phase.D.done', rec.nshards), ('phase.G.done', rec.nshards), ('transport.mixed', 200), ('phase.T.done', rec.nshards), ('text.ok', 200), ('text.fail', 200), ('cls.limit.charset', 100), ('phase.F.done', rec.nshards), ('align.corrupt', 300), ('phase.E.done', rec.nshards),
     ]:
         rec.floor(name, n)
 
